@@ -323,8 +323,30 @@ theorem ack_when_space (c : Config) (hmps : 1 ≤ c.mps) (pre mid : List In) (i 
     · have := (hnak.mp hk).2
       rw [hnl] at this; exact absurd this (by simp)
 
-theorem seen_le_mps_step {c : Config} {p p' : Phase} {i : In} (hs : p.step c i = some p') (h : p.seen ≤ c.mps) :
-    p'.seen ≤ c.mps := by
+/-- the running transaction is addressed to the endpoint (its token names the endpoint, OUT) -/
+def Phase.forUs (c : Config) : Phase → Bool
+  | .idle => false
+  | .tok t => t.targets c
+  | .rx t _ _ _ _ => t.targets c
+  | .finByte t _ _ _ _ => t.targets c
+  | .finStrobe t _ _ _ _ => t.targets c
+  | .finWait t _ _ => t.targets c
+
+theorem answered_forUs {c : Config} {pk : Phase} {i : In} {x : Nat × List Nat}
+    (ha : pk.answered c i = some x) : pk.forUs c = true := by
+  cases pk <;> simp only [Phase.answered] at ha
+  case idle => exact absurd ha (by simp)
+  case tok => exact absurd ha (by simp)
+  case rx => exact absurd ha (by simp)
+  all_goals
+    split at ha
+    · rename_i h
+      simp only [Bool.and_eq_true] at h
+      exact h.2
+    · exact absurd ha (by simp)
+
+theorem seen_le_mps_step {c : Config} {p p' : Phase} {i : In} (hs : p.step c i = some p')
+    (h : p.forUs c = true → p.seen ≤ c.mps) : p'.forUs c = true → p'.seen ≤ c.mps := by
   cases p with
   | idle =>
     obtain ⟨_, _, h3⟩ := step_idle_inv hs
@@ -332,24 +354,34 @@ theorem seen_le_mps_step {c : Config} {p p' : Phase} {i : In} (hs : p.step c i =
   | tok t =>
     obtain ⟨_, h3⟩ := step_tok_inv hs
     rcases h3 with ⟨_, _, _, rfl⟩ | ⟨_, _, _, _, hm, rfl⟩ | ⟨_, _, _, _, rfl⟩ | ⟨_, _, _, _, rfl⟩ <;>
-      simp [Phase.seen] <;> omega
+      simp [Phase.seen, Phase.forUs]
+    exact lenOk_inv hm
   | rx t pid sent now buf =>
     obtain ⟨_, _, h3⟩ := step_rx_inv hs
-    simp only [Phase.seen] at h
-    rcases h3 with ⟨_, _, hm, rfl⟩ | ⟨_, _, _, rfl⟩ | ⟨_, _, _, rfl⟩ <;> simp [Phase.seen] <;> omega
+    simp only [Phase.seen, Phase.forUs] at h
+    rcases h3 with ⟨_, _, hm, rfl⟩ | ⟨_, _, _, rfl⟩ | ⟨_, _, _, rfl⟩ <;> simp only [Phase.seen, Phase.forUs] <;>
+      intro hT
+    · have := lenOk_inv hm hT
+      simp only [List.length_append, Option.toList]
+      cases now <;> simp_all <;> omega
+    · have := h hT
+      cases now <;> simp_all
+    · have := h hT
+      cases now <;> simp_all <;> omega
   | finByte t pid sent now ok =>
     obtain ⟨_, _, _, rfl⟩ := step_finByte_inv hs
-    simpa [Phase.seen] using h
+    simpa [Phase.seen, Phase.forUs] using h
   | finStrobe t pid bytes ok responded =>
     obtain ⟨_, _, _, h3⟩ := step_finStrobe_inv hs
-    rcases h3 with ⟨_, rfl⟩ | ⟨_, _, _, rfl⟩ <;> simp [Phase.seen] <;> exact h
+    rcases h3 with ⟨_, rfl⟩ | ⟨_, _, _, rfl⟩ <;> simp [Phase.seen, Phase.forUs] <;> exact h
   | finWait t pid bytes =>
     obtain ⟨_, _, h3⟩ := step_finWait_inv hs
-    rcases h3 with ⟨_, rfl⟩ | ⟨_, rfl⟩ <;> simp [Phase.seen] <;> exact h
+    rcases h3 with ⟨_, rfl⟩ | ⟨_, rfl⟩ <;> simp [Phase.seen, Phase.forUs] <;> exact h
 
-/-- `LegalHost` packets are never longer than `max_packet_size` -/
+/-- the packets of `LegalHost` transactions addressed to the endpoint are never longer than `max_packet_size`
+(packets of other transactions may have any length) -/
 theorem seen_le_mps {c : Config} {p pk : Phase} {ins : List In} (h : Phase.run c p ins = some pk)
-    (hp : p.seen ≤ c.mps) : pk.seen ≤ c.mps := by
+    (hp : p.forUs c = true → p.seen ≤ c.mps) : pk.forUs c = true → pk.seen ≤ c.mps := by
   induction ins generalizing p with
   | nil => simp only [Phase.run, Option.some.injEq] at h; subst h; exact hp
   | cons m ms ih =>
@@ -370,7 +402,7 @@ theorem ping_ack_promise (c : Config) (hmps : 1 ≤ c.mps) (pre mid : List In) (
     (outOf c (runState c (runState c init pre) mid) i).nak = false := by
   have hlen : bytes.length ≤ c.mps := by
     rw [← answered_seen h4]
-    exact seen_le_mps h2 (by simp [Phase.seen])
+    exact seen_le_mps h2 (by simp [Phase.seen]) (answered_forUs h4)
   exact (ack_when_space c hmps pre mid i t pk p' pid bytes h1 h2 hnt h3 h4 (Nat.le_trans hlen hspace)).2
 
 /-! ### Non-vacuity: a 4-byte packet into an empty 7-entry FIFO with a stalled consumer -/
